@@ -28,7 +28,11 @@ def one(d, nosuite=False):
     d = os.path.abspath(d)
     meta = json.load(open(os.path.join(d, "meta.json")))
     pid = meta["property"]
-    wave = "w2-" if "/seed2/" in d else ("w3-" if "/seed3/" in d else "")
+    import re
+    mw = re.search(r"/seed(\d+)/", d)
+    wave = ("w%s-" % mw.group(1)) if mw and mw.group(1) != "1" else ""
+    if not mw and "/seed/" not in d:
+        raise SystemExit("cannot tell the wave of %s" % d)
     name = "%s-%s%s" % (pid, wave, os.path.basename(d))
     dest = os.path.join(V, "seeded", name)
     tmp = tempfile.mkdtemp(prefix="collect_")
